@@ -291,7 +291,14 @@ extern MPT_INTERFACE(metatype) *_mpt_iterator_range(MPT_STRUCT(value) *val)
 			errno = ERANGE;
 			return 0;
 		}
-		iv = (r.max - r.min) / step;
+		{
+			/* quotient of rounded operands may fall just short of a whole number of steps */
+			double cnt = (r.max - r.min) / step;
+			iv = cnt;
+			if ((iv + 1) - cnt <= (iv + 1) * 8 * DBL_EPSILON) {
+				++iv;
+			}
+		}
 	}
 	if (!(data = malloc(sizeof(*data)))) {
 		return 0;
